@@ -170,6 +170,26 @@ def observe(pool, rg, scn, want_git=True, walkers=("parallel", "serial"), visibl
             ob = r.rg_visible(rg, scn["ci"], w, cwd=d, parent=True)
             res["below"].append({"roots": [d], "cwd": d, "walker": w, "ob": ob,
                                  "expected": [p[len(d) + 1:] for p in expected_below(visible, [d])]})
+            # the same directory named in other ways: relative, with ./, absolute, "." from inside, ../ from a sibling
+            form = (len(scn["files"]) + len(d) + k + len(scn["ign"]) * 3 + sum(len(l) for ig in scn["ign"] for l in ig["lines"])) % 5
+            if form == 0:
+                cwd2, arg, prefix = "", d, d + "/"
+            elif form == 1:
+                cwd2, arg, prefix = "", "./" + d, "./" + d + "/"
+            elif form == 2:
+                cwd2, arg, prefix = "", os.path.join(r.dir, d), os.path.join(r.dir, d) + "/"
+            elif form == 3:
+                cwd2, arg, prefix = d, ".", "./"
+            else:
+                sib = [x for x in ds if x != d and "/" not in x and not d.startswith(x + "/")]
+                if not sib or "/" in d:
+                    cwd2, arg, prefix = "", d, d + "/"
+                else:
+                    cwd2, arg, prefix = sib[0], "../" + d, "../" + d + "/"
+            ob2 = r.rg_visible(rg, scn["ci"], w, cwd=cwd2, parent=True, paths=["--", arg])
+            ob2["files"] = sorted(x[len(prefix):] if x.startswith(prefix) else "?" + x for x in ob2["files"])
+            res["below"].append({"roots": [arg], "cwd": cwd2 or ".", "walker": w, "ob": ob2, "named": True,
+                                 "expected": [p[len(d) + 1:] for p in expected_below(visible, [d])]})
         # (b) several roots named on the command line, the ignore files of the cwd are parents of each of them
         top = [d for d in ds if "/" not in d]
         if len(top) >= 2:
@@ -331,7 +351,7 @@ def explore(chk, cfgname, rg, timeout):
             rel = [p[len(b["cwd"]) + 1:] if False else p for p in diff]
             depth = max([len((p if b["cwd"] else p.split("/", 1)[-1]).split("/")) for p in rel] or [0])
             sig = dict(make_sig(rec, [((b["cwd"] + "/") if b["cwd"] else "") + p for p in diff], b["walker"], listed, hidden),
-                       start="subdirectory" if b["cwd"] else "several_roots", depth_below_root=min(depth, 3))
+                       start="named_root" if b.get("named") else "subdirectory" if b["cwd"] else "several_roots", depth_below_root=min(depth, 3))
             chk.violation(sig, {"why": "search started below the ignore files (%s): rg lists %s which git ignores; rg skips %s which git does not ignore"
                                        % ("cwd=" + b["cwd"] if b["cwd"] else "roots " + " ".join(b["roots"]), listed, hidden),
                                 "scenario": scn, "cwd": b["cwd"], "roots": b["roots"], "expected_visible": b["expected"], "observed": ob,
